@@ -416,6 +416,7 @@ func main() {
 			c = c[:30]
 		}
 		dist["result:"+c]++
+		dist["bystream:"+stream+"|"+c]++
 	}
 	for _, l := range corpusLines() {
 		emit("corpus", l)
@@ -442,7 +443,7 @@ func main() {
 	sb.WriteString("{\"ops\":" + strconv.Itoa(out.N) + ",\"streams\":{")
 	first := true
 	for _, k := range keys {
-		if strings.HasPrefix(k, "result:") {
+		if strings.HasPrefix(k, "result:") || strings.HasPrefix(k, "bystream:") {
 			continue
 		}
 		if !first {
@@ -462,6 +463,18 @@ func main() {
 		}
 		first = false
 		sb.WriteString(strconv.Quote(k[7:]) + ":" + strconv.Itoa(dist[k]))
+	}
+	sb.WriteString("},\"by_stream\":{")
+	first = true
+	for _, k := range keys {
+		if !strings.HasPrefix(k, "bystream:") {
+			continue
+		}
+		if !first {
+			sb.WriteByte(',')
+		}
+		first = false
+		sb.WriteString(strconv.Quote(k[9:]) + ":" + strconv.Itoa(dist[k]))
 	}
 	sb.WriteString("},\"opcodes\":" + g.opcodeHistogram())
 	sb.WriteString(",\"aliasing\":" + jsonList(aliasing) + ",\"rejected\":" + jsonList(rejected) + "}")
